@@ -311,6 +311,52 @@ def _(tmp):
     edit(tmp, "src/asm/resolver/eval_asm.rs", lambda s: s.replace("    let mut result = util::BigInt::new(0, Some(0));\n    let mut cur_position = position_at_start;\n    let mut unstable = false;", "    let mut unstable = false;\n    let mut cur_position = position_at_start;\n    let mut result = util::BigInt::new(0, Some(0));"))
 
 
+@case("rename-format-output-param", ["C11", "C18", "C12"])
+def _(tmp):
+    edit(tmp, "src/driver.rs", lambda s: rename_in_fn(s, "format_output", {"format": "kind", "output": "bits"}))
+
+
+@case("rename-parse-output-format-locals", ["C18", "C11", "C10"])
+def _(tmp):
+    edit(tmp, "src/driver.rs", lambda s: rename_in_fn(s, "parse_output_format", {"params": "given", "format_id": "fmt_name"}))
+
+
+@case("rename-prefix-index-locals", ["C07", "C08"])
+def _(tmp):
+    edit(tmp, "src/asm/defs/ruledef_map.rs", lambda s: rename_in_fn(rename_in_fn(s, "parse_prefix", {"prefix": "key", "prefix_index": "n"}), "insert", {"prefix": "key", "prefix_index": "n"}))
+
+
+@case("rename-report-params", ["C03", "C13", "C15", "C02"])
+def _(tmp):
+    edit(tmp, "src/asm/decls/symbol.rs", lambda s: rename_in_fn(s, "collect", {"report": "rep"}))
+    edit(tmp, "src/asm/resolver/label.rs", lambda s: rename_in_fn(s, "resolve_label", {"report": "rep", "ctx": "rc"}))
+
+
+@case("rename-span-walker-locals", ["C13"])
+def _(tmp):
+    edit(tmp, "src/syntax/walker.rs", lambda s: rename_in_fn(s, "get_span", {"start": "from", "end": "to"}) if "fn get_span" in s else s + "\n")
+
+
+@case("rename-eval-fn-locals", ["C17", "C03"])
+def _(tmp):
+    edit(tmp, "src/asm/resolver/eval_fn.rs", lambda s: rename_in_fn(s, "eval_fn", {"args_ctx": "callee_ctx", "function": "func", "param_index": "k"}))
+
+
+@case("rename-navigate-locals", ["C14"])
+def _(tmp):
+    edit(tmp, "src/util/file_navigation.rs", lambda s: rename_in_fn(s, "filename_navigate", {"path_components": "parts", "new_path_components": "kept", "relative_components": "rel", "nav": "wanted"}))
+
+
+@case("rename-resolve-ifs-locals", ["C16"])
+def _(tmp):
+    edit(tmp, "src/asm/resolver/directive_if.rs", lambda s: rename_in_fn(s, "resolve_ifs", {"condition_result": "cond", "node": "if_node", "n": "at"}))
+
+
+@case("rename-query-prefixed-locals", ["C07", "C08"])
+def _(tmp):
+    edit(tmp, "src/asm/defs/ruledef_map.rs", lambda s: rename_in_fn(s, "query_prefixed", {"i": "n", "j": "m", "subprefix": "probe", "results": "found"}))
+
+
 def run_case(c):
     name, props, fn = c
     tmp = tempfile.mkdtemp(prefix="casm-neutral-")
